@@ -15,7 +15,7 @@ RULE = (
     "(a) conditions from the C06 grammar biased (70%) to GUARDED forms whose later operands are only defined when earlier ones hold "
     "(`xs and xs[0] > i`, `k in d and d[k] > i`, `b != 0 and a // b > i`, `0 < b < 10 // b`, `x is None or x + 1 > i`, guarded "
     "conditionals, ...) with inputs falsifying the guard; random sub-expressions are wrapped in counting probes P(k, e). x error "
-    "form {default, exception class, instance, factory}. (b) layout matrix: the same conditions rendered in 34 decorator layouts "
+    "form {default, exception class, instance, factory}. (b) layout matrix: the same conditions rendered in 37 decorator layouts "
     "(one line, many lines, keyword form with condition first/last, error lambdas before/after the condition and on neighbouring "
     "decorators, comments trailing/interleaved containing `def`/`class`/`@`, foreign decorators around, nested in classes and "
     "functions at several indentations, backslash continuation, blank lines and comments before def, async def, aliased imports, "
@@ -72,6 +72,14 @@ def foreign_deco(func):
 
 def foreign_with_args(*a, **k):
     return foreign_deco
+
+
+class _Mat:
+    def __matmul__(self, other):
+        return "matmul"
+
+
+MAT = _Mat()
 
 
 class ErrA(Exception):
@@ -277,6 +285,20 @@ def layouts() -> List[Tuple[str, Any]]:
     def _(k, lam, e, d, ek, fp):
         return _nested(k, ["    @icontract.require(", "        lambda {}: {}, description={!r}{}".format(lam, e, d, ek), ")"], fp, in_class=False)
 
+    # physical lines inside the decorator that LOOK like the start of another decorator or of the definition
+    @add("continuation-line-starting-with-the-matmul-operator")
+    def _(k, lam, e, d, ek, fp):
+        return _fn("@icontract.require(lambda {}: {}, description=str(MAT\n    @MAT) and {!r}{})".format(lam, e, d, ek), fp, k), "f_" + k
+
+    @add("description-text-with-lines-like-def-class-and-decorator")
+    def _(k, lam, e, d, ek, fp):
+        return _fn('@icontract.require(lambda {}: {}, description="""{}\ndef looks_like_a_definition(): pass\nclass OrAClass:\n@or_a_decorator\n""".splitlines()[0]{})'.format(
+            lam, e, d, ek), fp, k), "f_" + k
+
+    @add("method-continuation-line-starting-with-the-matmul-operator")
+    def _(k, lam, e, d, ek, fp):
+        return _nested(k, ["    @icontract.require(lambda {}: {}, description=str(MAT".format(lam, e), "        @MAT) and {!r}{})".format(d, ek)], fp)
+
     @add("invariant-on-class")
     def _(k, lam, e, d, ek, fp):
         return None  # handled separately (different parameters)
@@ -365,6 +387,8 @@ def judge(w, mod: Any, item: Dict[str, Any], twin: exprs.Twin, kwargs: Dict[str,
             key = classify_recompute_failure(item["expr"], exc)
         elif isinstance(exc, IndentationError):
             key = "C07/decorator-line-indented-less-than-at-sign"
+        elif isinstance(exc, SyntaxError) and ("matmul" in item["layout"] or "lines-like-def" in item["layout"]):
+            key = "C07/decorator-cut-at-look-alike-line"
         elif form in ("default", "class") and (isinstance(exc, SyntaxError) or (
                 isinstance(exc, (ValueError, AssertionError)) and ("decorator" in str(exc) or "lambda" in str(exc)))):
             key = "C07/decorator-source-not-recovered/" + item["layout"]
@@ -661,6 +685,106 @@ def run_generic(w, batch_no: int, n_items: int) -> None:
         loaded.unload()
 
 
+PRIVATE_SOURCE = '''
+import icontract
+
+__module_private = 99  # a decoy: inside the class body Python reads _Account__module_private
+
+
+class ErrP(Exception):
+    pass
+
+
+class Account:
+    def __init__(self):
+        self.__balance = 1
+        self.__items = [1, 2]
+        self.plain = 5
+
+    @icontract.require(lambda self, a: self.__balance > a, description="D:attr"{ek})
+    def attr(self, a):
+        return a
+
+    @icontract.require(lambda self, a: all(x > a for x in self.__items), description="D:in-iterable"{ek})
+    def in_iterable(self, a):
+        return a
+
+    @icontract.require(lambda self, a: all(x + self.__balance > a for x in [1, 2]), description="D:in-comprehension"{ek})
+    def in_comprehension(self, a):
+        return a
+
+    @icontract.require(lambda self, a: self.plain > a and self.__balance > a, description="D:guarded"{ek})
+    def guarded(self, a):
+        return a
+
+    @icontract.ensure(lambda self, result: result > self.__balance, description="D:post"{ek})
+    def post(self, a):
+        return a
+
+    @icontract.require(lambda a: a > __module_private, description="D:global"{ek})
+    def global_name(self, a):
+        return a
+
+    class Inner:
+        def __init__(self):
+            self.__depth = 2
+
+        @icontract.require(lambda self, a: self.__depth > a, description="D:nested-class"{ek})
+        def nested(self, a):
+            return a
+
+
+class _Hidden:
+    def __init__(self):
+        self.__v = 1
+
+    @icontract.require(lambda self, a: self.__v > a, description="D:underscored-class"{ek})
+    def underscored(self, a):
+        return a
+'''
+
+def run_private_names(w) -> None:
+    """Conditions written in a class body that use private (name-mangled) attributes and names."""
+    import icontract  # pylint: disable=import-outside-toplevel
+
+    for form, ek in (("default", ""), ("class", ", error=ErrP")):
+        src = PRIVATE_SOURCE.replace("{ek}", ek) + "\n_Account__module_private = 3\n"
+        loaded = prog.load_source(src, w.scratch())
+        mod = loaded.module
+        try:
+            targets = [("attr", mod.Account().attr), ("in-iterable", mod.Account().in_iterable), ("in-comprehension", mod.Account().in_comprehension),
+                       ("guarded", mod.Account().guarded), ("post", mod.Account().post), ("global", mod.Account().global_name),
+                       ("nested-class", mod.Account.Inner().nested), ("underscored-class", mod._Hidden().underscored)]  # pylint: disable=protected-access
+            for tag, fn in targets:
+                for arg in (4, 0):
+                    w.count("violating_calls")
+                    w.count("private_name_conditions")
+                    w.case(("private-name", tag, form, arg))
+                    case = {"private_name": tag, "form": form, "arg": arg}
+                    try:
+                        fn(arg)
+                        exc = None
+                    except BaseException as err:  # pylint: disable=broad-except
+                        exc = err
+                    want = icontract.ViolationError if form == "default" else mod.ErrP
+                    violated = (arg == 4) if tag not in ("post", "global") else (arg == 0)
+                    if not violated:
+                        if exc is not None:
+                            w.violation("C07/private-name-condition-fails-although-satisfied", "{}({}) raised {!r}".format(tag, arg, exc), case)
+                        continue
+                    if type(exc) is not want:
+                        w.violation("C07/private-name-not-mangled-during-message-building",
+                                    "condition {} uses a private name inside a class body; expected {} but got {}: {}".format(
+                                        tag, want.__name__, type(exc).__name__, str(exc)[:200]), case)
+                    elif "D:{}: ".format(tag) not in (str(exc) if form == "default" else str(exc.args[0])):
+                        w.violation("C07/description-missing", "message of {} lacks its description".format(tag), case)
+                    elif tag == "global" and "__module_private was 99" in str(exc):
+                        w.violation("C07/private-name-not-mangled-during-message-building",
+                                    "the message shows the value of the un-mangled global (99), Python evaluated _Account__module_private (3)", case)
+        finally:
+            loaded.unload()
+
+
 def run(w) -> None:
     install_hook()
     all_layouts = layouts()
@@ -672,11 +796,16 @@ def run(w) -> None:
         run_generic(w, b, 40)
     if w.shard == 0:
         run_invariant_layouts(w)
+    if w.shard == 1 % w.nshards:
+        run_private_names(w)
     w.exhaustive = False
 
 
 def replay(case, w) -> None:
     install_hook()
+    if "private_name" in case:
+        run_private_names(w)
+        return
     if "invariant" in case:
         run_invariant_layouts(w)
         return
